@@ -172,8 +172,10 @@ class ListWrapper(typing.MutableSequence[T]):
 
     def insert(self, i: int, v: T) -> None:
         self._check_index(i)
-        self._add(v)
-        return self._data.insert(i, v)
+        # s.insert(i, x) is s[i:i] = [x]: a value this list already holds is
+        # moved to where list.insert puts it (removing it first would apply
+        # the index to the shortened list).
+        self[i:i] = [v]
 
     def pop(self, i: int = -1) -> T:
         self._check_index(i)
